@@ -154,6 +154,7 @@ pub async fn run(args: &Args, rep: &mut Reporter) {
         }
         // preferences + server list
         let target0 = w.devices[0].target.clone().with_account_id(&account_id);
+        let mut primary_urls: Vec<url::Url> = vec![];
         {
             let p = Preferences::new(target0.clone());
             let _ = p.new_account(&account_id).await;
@@ -167,6 +168,7 @@ pub async fn run(args: &Args, rep: &mut Reporter) {
             let mut so = ServerOrigins::new(target0.clone(), &account_id);
             for i in 0..rng.range(1, 3) {
                 let url = url::Url::parse(&format!("https://server{i}-{}.example.com:5053", rng.token(5).to_lowercase())).unwrap();
+                primary_urls.push(url.clone());
                 let origin: Origin = url.into();
                 let _ = so.add_server(origin).await;
             }
@@ -186,6 +188,17 @@ pub async fn run(args: &Args, rep: &mut Reporter) {
                         let _ = acc.create_secret(m, s, Default::default()).await;
                     }
                     let t2 = t.with_account_id(&id);
+                    // the second account lists the servers of the first one too, plus its own
+                    {
+                        let mut so2 = ServerOrigins::new(t2.clone(), &id);
+                        for u in &primary_urls {
+                            let origin: Origin = u.clone().into();
+                            let _ = so2.add_server(origin).await;
+                            rep.count("servers_shared_between_accounts", 1);
+                        }
+                        let own: Origin = url::Url::parse(&format!("https://own-{}.example.org", rng.token(5).to_lowercase())).unwrap().into();
+                        let _ = so2.add_server(own).await;
+                    }
                     let b = capture(&mut acc, &t2, &id, BTreeMap::new()).await.ok();
                     let _ = acc.sign_out().await;
                     b.map(|b| (id, pw, b))
